@@ -125,13 +125,15 @@ def one_position_module(methods, corpus, checks, prelude=""):
     return "\n\n".join(L) + "\n"
 
 
-def two_position_module(p1, p2, prio=(0, 0, 0), third="int"):
+def two_position_module(p1, p2, prio=(0, 0, 0), third="int", anns=None):
     """f(x: Dependent[int, p1], y: int) / f(x: int, y: Dependent[int, p2]) / f(x: int, y: int)  (+ object fallback)"""
     L = [SPEC_LIB, "f = Ovld()"]
     L.append(f"def q0(x):\n    PRED.append((int, x))\n    return {p1}")
     L.append(f"def q1(x):\n    PRED.append((int, x))\n    return {p2}")
-    L.append("def m0(x: Dependent[int, q0], y: int):\n    LOG.append(0)\n    return 0")
-    L.append("def m1(x: int, y: Dependent[int, q1]):\n    LOG.append(1)\n    return 1")
+    # (anns: the two value-dependent annotations spelled otherwise, e.g. as Literal[...]; p1 / p2 then state their documented meaning)
+    a0, a1 = anns or ("Dependent[int, q0]", "Dependent[int, q1]")
+    L.append(f"def m0(x: {a0}, y: int):\n    LOG.append(0)\n    return 0")
+    L.append(f"def m1(x: int, y: {a1}):\n    LOG.append(1)\n    return 1")
     L.append(f"def m2(x: {third}, y: {third}):\n    LOG.append(2)\n    return 2")
     L.append("def m3(x: object, y: object):\n    LOG.append(3)\n    return 3")
     for i, p in enumerate(list(prio) + [-5]):
